@@ -44,7 +44,7 @@ ASSUMPTIONS = [
     "extract_energy_sum: int() of the sum of the selected entries, +-1e-6 "
     "before truncation",
 ]
-BUDGET_S = {"quick": 55, "thorough": 780}
+BUDGET_S = {"quick": 50, "thorough": 780}
 REQUIRED_LABELS = {
     "quick": ["count:QConv2D", "count:Conv2D", "count:QConv1D", "count:Conv1D",
               "count:QDepthwiseConv2D", "count:DepthwiseConv2D", "count:QDense",
